@@ -9,6 +9,9 @@ import Proofs.SsfProxy
 import Proofs.SsfSrc
 import Proofs.SsfHandle
 import Proofs.SsfInner
+import Proofs.SsfMean
+import Proofs.SsfText
+import Proofs.SsfEval
 namespace Pydap.C19
 open Pydap Pydap.Handler Pydap.Ssf
 
@@ -92,6 +95,90 @@ theorem C19_mean_nested (a : Arr) (k1 k2 : Nat) (hk1 : k1 < a.shape.length)
   · rw [d2, d1]
   · rw [n2, n1]; congr 1; simp [s1]
 
+/-- **mean, the whole clause in one statement (round 7)** — for every array (any rank ≥ 1, any extents, `prod shape`
+    values) and every axis *as the request spells it*, `-rank ≤ axis < rank` (numpy's valid axes: a negative one counts
+    from the last): `mean` succeeds; with `k` the position of that axis counted from the front, the result's shape and
+    dimension names are the source's with entry `k` removed, the denominator is multiplied by the extent of axis `k`, and
+    **at every multi-index `ix` of the result the value is the sum over `i < shape[k]` of the source value at the
+    multi-index `ix` with `i` inserted at position `k`** (`flatIdx`: row-major position, numpy's C order; the positions
+    read are inside the data: `flatIdx_lt`, `validIx_insert`).  This is the closed form of `sumAxis` for every axis;
+    `C19_mean_value0` / `C19_mean_value_succ` are its first-axis case and the recursion equation of the model. -/
+theorem C19_mean (a : Arr) (axis : Int) (hlo : -(a.shape.length : Int) ≤ axis) (hhi : axis < a.shape.length)
+    (hwf : a.data.length = prod a.shape) :
+    ∃ (k : Nat) (hk : k < a.shape.length) (r : Arr),
+      (k : Int) = (if axis < 0 then axis + a.shape.length else axis) ∧
+      meanAxis a axis = .ok r ∧ r.shape = a.shape.eraseIdx k ∧ r.dims = a.dims.eraseIdx k ∧
+      r.data.length = prod r.shape ∧ r.den = a.den * a.shape[k] ∧
+      ∀ ix, ValidIx r.shape ix →
+        r.data[flatIdx r.shape ix]? =
+          some (((List.range a.shape[k]).map fun i => (a.data[flatIdx a.shape (ix.insertIdx k i)]?).getD 0).sum) ∧
+        ∀ i, i < a.shape[k] → flatIdx a.shape (ix.insertIdx k i) < a.data.length := by
+  have hn : ∃ k : Nat, k < a.shape.length ∧ (k : Int) = (if axis < 0 then axis + a.shape.length else axis) ∧
+      normAxis a.shape.length axis = .ok k := by
+    unfold normAxis
+    by_cases h0 : 0 ≤ axis
+    · refine ⟨axis.toNat, by omega, ?_, by simp [h0]⟩
+      rw [if_neg (by omega)]; omega
+    · refine ⟨(axis + a.shape.length).toNat, by omega, ?_, by simp [h0, hlo]⟩
+      rw [if_pos (by omega)]; omega
+  obtain ⟨k, hk, hki, hnorm⟩ := hn
+  obtain ⟨r, hr, hs, hd, hl, hden⟩ := C19_mean_shape a k hk hwf
+  refine ⟨k, hk, r, hki, by simp only [meanAxis, hnorm, hr], hs, hd, hl, hden, ?_⟩
+  intro ix hv
+  have hdata : r.data = sumAxis a.shape k a.data := by
+    unfold meanArr at hr
+    rw [List.getElem?_eq_getElem hk] at hr
+    simp only [Except.ok.injEq] at hr
+    rw [← hr]
+  rw [hs] at hv ⊢
+  refine ⟨by rw [hdata]; exact sumAxis_value a.shape k a.data hk ix hwf hv, fun i hi => ?_⟩
+  rw [hwf]
+  exact flatIdx_lt _ _ (validIx_insert a.shape k ix i hk hv hi)
+
+/-- an axis outside `-rank ≤ axis < rank` is refused (numpy's AxisError, answered with an error document) -/
+theorem C19_mean_axis_out_of_range (a : Arr) (axis : Int)
+    (h : axis < -(a.shape.length : Int) ∨ (a.shape.length : Int) ≤ axis) : meanAxis a axis = .error .valueError := by
+  unfold meanAxis normAxis
+  rcases h with h | h
+  · rw [if_neg (by omega), if_neg (by omega)]
+  · rw [if_pos (by omega)]
+    simp only [meanArr]
+    rw [List.getElem?_eq_none (by omega)]
+
+/-- what the repair of round 7 removed: with a negative axis the code before it dropped **no** dimension name
+    (`i != axis` is true of every position) while numpy removed the axis from shape and data — `mean(a,-2)` on
+    `a[y = 2][x = 3]` was declared `a[y = 3]` (and a grid kept the map of the removed axis) -/
+theorem C19_mean_negative_axis_old_refuted :
+    ¬ (∀ (a : Arr) (axis : Int) (r : Arr), meanAxisOld a axis = .ok r → r.dims.length = r.shape.length) ∧
+    meanAxisOld ⟨[2, 3], [cs!"y", cs!"x"], [0, 1, 2, 3, 4, 5], 1⟩ (-2) = .ok ⟨[3], [cs!"y", cs!"x"], [3, 5, 7], 2⟩ ∧
+    meanAxis ⟨[2, 3], [cs!"y", cs!"x"], [0, 1, 2, 3, 4, 5], 1⟩ (-2) = .ok ⟨[3], [cs!"x"], [3, 5, 7], 2⟩ := by
+  have e : meanAxisOld ⟨[2, 3], [cs!"y", cs!"x"], [0, 1, 2, 3, 4, 5], 1⟩ (-2) = .ok ⟨[3], [cs!"y", cs!"x"], [3, 5, 7], 2⟩ := by
+    decide
+  refine ⟨fun h => ?_, e, by decide⟩
+  have := h _ _ _ e
+  revert this
+  decide
+
+/-- **mean on a grid: it succeeds, and the maps are the source's with the map of that axis removed** — for every grid
+    whose maps are named, in order, as the dimensions of its array (distinct names: they are the grid's dict keys),
+    and every valid axis as the request spells it.  (`C19_mean_grid_maps` below is the converse reading: whatever
+    `meanGrid` answers has these maps, without assuming the grid well formed.) -/
+theorem C19_mean_grid (g : GridA) (axis : Int) (hlo : -(g.array.shape.length : Int) ≤ axis)
+    (hhi : axis < g.array.shape.length) (hm : g.maps.map (·.1) = g.array.dims) (hnd : g.array.dims.Nodup) :
+    ∃ (k : Nat) (a : Arr), (k : Int) = (if axis < 0 then axis + g.array.shape.length else axis) ∧
+      meanAxis g.array axis = .ok a ∧ meanGridAxis g axis = .ok ⟨a, g.maps.eraseIdx k⟩ := by
+  have hn : ∃ k : Nat, k < g.array.shape.length ∧ (k : Int) = (if axis < 0 then axis + g.array.shape.length else axis) ∧
+      normAxis g.array.shape.length axis = .ok k := by
+    unfold normAxis
+    by_cases h0 : 0 ≤ axis
+    · refine ⟨axis.toNat, by omega, ?_, by simp [h0]⟩
+      rw [if_neg (by omega)]; omega
+    · refine ⟨(axis + g.array.shape.length).toNat, by omega, ?_, by simp [h0, hlo]⟩
+      rw [if_pos (by omega)]; omega
+  obtain ⟨k, hk, hki, hnorm⟩ := hn
+  obtain ⟨a, ha, hg⟩ := meanGrid_ok g k hk hm hnd
+  exact ⟨k, a, hki, by simp only [meanAxis, hnorm, ha], by simp only [meanGridAxis, hnorm, hg]⟩
+
 /-- **grid maps**: the result grid keeps, in the order of the remaining dimension names, the source
     map of each remaining dimension — the map of the removed axis is gone -/
 theorem C19_mean_grid_maps (g r : GridA) (axis : Nat) (h : meanGrid g axis = .ok r) :
@@ -152,6 +239,35 @@ theorem C19_bounds (iv : Axis → Int × Int) (cols : List (Option Axis)) (rows 
   refine ⟨e, ?_, inIv_iff⟩
   unfold bounds; rw [e]; exact List.filter_sublist
 
+/-- **bounds, by membership**: a record is in the answer exactly when it is a source record and, for every column
+    with an X / Y / Z axis attribute (position `i`), it has a value there that lies in that axis' closed interval; the
+    columns without such an attribute do not matter.  (A record too short to have column `i` is dropped: the model's
+    rows are lists; the generator's and pydap's records always have one value per column.) -/
+theorem C19_bounds_mem (iv : Axis → Int × Int) (cols : List (Option Axis)) (rows : List (List Int)) (r : List Int) :
+    r ∈ bounds iv cols rows ↔
+      r ∈ rows ∧ ∀ (i : Nat) (ax : Axis), cols[i]? = some (some ax) → ∃ v : Int, r[i]? = some v ∧ (iv ax).1 ≤ v ∧ v ≤ (iv ax).2 := by
+  rw [(C19_bounds iv cols rows).1, List.mem_filter]
+  refine and_congr_right fun _ => ?_
+  simp only [keepAll, List.all_eq_true]
+  constructor
+  · intro h i ax hi
+    have hm : (some ax, i) ∈ cols.zipIdx := by
+      rw [List.mem_zipIdx_iff_getElem?]; simpa using hi
+    have := h _ hm
+    simp only [keepRow] at this
+    split at this
+    · rename_i v hv; exact ⟨v, hv, (inIv_iff _ _ _).1 this⟩
+    · cases this
+  · rintro h ⟨oa, i⟩ hm
+    cases oa with
+    | none => rfl
+    | some ax =>
+      have hi : cols[i]? = some (some ax) := by
+        have := List.mem_zipIdx_iff_getElem?.1 hm; simpa using this
+      obtain ⟨v, hv, hb⟩ := h i ax hi
+      simp only [keepRow, hv]
+      exact (inIv_iff _ _ _).2 hb
+
 /-- **The function proxy's id string parses back to the call tree it was built from**, character by
     character, for call trees of any depth and any arity (zero included, since the repair of
     `tokenize`): `render` is `ServerFunction.__call__`'s `name + "(" + ",".join(params) + ")"` with
@@ -189,6 +305,44 @@ theorem C19_transparent_clauses (app : Str → Str → Outcome) (fn : Str → St
   obtain ⟨lhs, c, rest, rfl, hc, hl⟩ := hsel s hs
   simp [isCallSel_comparison lhs rest c hc hl]
 
+/-- **Transparency from the request TEXT (round 7)**: a constraint that parses and whose text (after the one
+    `unquote` of `parse_ce`) holds no `(` is handed to the wrapped application unchanged — neither a projection item nor a
+    selection clause can be a call.  Together with `C19_transparent_clauses` (clauses whose *constant* holds
+    parentheses) this covers the function-free constraints of C04/C06 without referring to the middleware's own test. -/
+theorem C19_transparent_text (app : Str → Str → Outcome) (fn : Str → Str → Str → Except Exc Outcome)
+    (path query pre resp : Str) (proj : List ProjItem) (sel : List Str)
+    (hq : parseCE query = .ok (proj, sel)) (hp : rsplitDot path = some (pre, resp))
+    (hn : '(' ∉ unquote query) :
+    ssf app fn path query = app path query :=
+  C19_transparent app fn path query pre resp proj sel hq hp (hasCall_no_paren query proj sel hq hn)
+
+/-- **the value of a mean of a mean, one formula**: at every multi-index `ix` of the result, the double sum over the
+    two removed axes of the source value at `ix` with `i2` inserted at `k2` and then `i1` at `k1` (the common denominator
+    is the product of the two extents: `C19_mean_nested`) -/
+theorem C19_mean_nested_value (a r1 r2 : Arr) (k1 k2 : Nat) (hwf : a.data.length = prod a.shape)
+    (h1 : meanArr a k1 = .ok r1) (h2 : meanArr r1 k2 = .ok r2) (hk1 : k1 < a.shape.length)
+    (hk2 : k2 < (a.shape.eraseIdx k1).length) (ix : List Nat) (hv : ValidIx r2.shape ix) :
+    r2.data[flatIdx r2.shape ix]? =
+      some (((List.range (a.shape.eraseIdx k1)[k2]).map fun i2 =>
+        ((List.range a.shape[k1]).map fun i1 =>
+          (a.data[flatIdx a.shape ((ix.insertIdx k2 i2).insertIdx k1 i1)]?).getD 0).sum).sum) :=
+  meanArr_nested_value a r1 r2 k1 k2 hwf h1 h2 hk1 hk2 ix hv
+
+/-- **nesting to any depth, from the text**: the id `mean(…mean(mean(v,k1),k2)…,kn)` — as the client's proxy renders
+    it (`render`) and as `eval_function` parses it (`parseCall`, its own fuel) — evaluates (`evalMean`: arguments first,
+    then the function) to the chain `mean(·,kn) ∘ … ∘ mean(·,k1)` on the variable `v`, for every depth `n`, every
+    variable name and axis tokens free of `( ) ,` that read as decimal integers (negative ones included).  Each link of
+    the chain is `C19_mean`. -/
+theorem C19_mean_nested_text (env : Str → Option Arr) (v : Str) (a : Arr) (ks : List Str) (axes : List Int)
+    (hv : Plain v ∧ v ≠ []) (henv : env v = some a) (hks : ∀ k ∈ ks, Plain k ∧ k ≠ [])
+    (hax : ks.map parseIntChars = axes.map some) :
+    evalMean env (parseCall (render (meanTree v ks)).length (render (meanTree v ks))) = meanChainI (.ok a) axes := by
+  have hok : (meanTree v ks).Ok := meanTree_ok v hv ks (.tok v) (by simp only [Arg.Ok]; exact hv) hks
+  rw [(C19_proxy _ hok).1]
+  unfold meanTree
+  rw [evalMean_fold env ks axes _ hax]
+  simp only [evalMean, henv]
+
 /-- the guard is sharp: a string argument that contains a comma is split into two tokens (`encode`
     does not escape and the tokeniser does not know quotes), and an empty leaf is indistinguishable
     from no argument -/
@@ -205,6 +359,29 @@ example : route cs!"/d.dods" cs!"s&s.t=\"(a)\"&s.u!=\"mean(a,0)\"" = .pass := by
 example : isCallSel cs!"bounds(0,1)>=1" = true ∧ isCallSel cs!"s.t=\"(a)\"" = false := by decide
 example : meanArr ⟨[2, 3], [cs!"y", cs!"x"], [1, 2, 3, 4, 5, 6], 1⟩ 0 = .ok ⟨[3], [cs!"x"], [5, 7, 9], 2⟩ := by decide
 example : meanArr ⟨[2, 3], [cs!"y", cs!"x"], [1, 2, 3, 4, 5, 6], 1⟩ 1 = .ok ⟨[2], [cs!"y"], [6, 15], 3⟩ := by decide
+-- the whole `mean` clause on a rank-3 array, axis -2 (= 1 from the front): hypotheses hold, the value at multi-index [1, 0]
+example : ∃ (k : Nat) (_ : k < 3) (r : Arr), (k : Int) = 1 ∧
+    meanAxis ⟨[2, 2, 2], [cs!"z", cs!"y", cs!"x"], [1, 2, 3, 4, 5, 6, 7, 8], 1⟩ (-2) = .ok r ∧ r.shape = [2, 2] ∧
+    r.dims = [cs!"z", cs!"x"] ∧ r.data[flatIdx r.shape [1, 0]]? = some (5 + 7) :=
+  ⟨1, by decide, ⟨[2, 2], [cs!"z", cs!"x"], [4, 6, 12, 14], 2⟩, rfl, by decide, rfl, rfl, by decide⟩
+example : ValidIx [2, 2] [1, 0] ∧ flatIdx [2, 2, 2] ([1, 0].insertIdx 1 1) = 6 ∧ ¬ ValidIx [2, 2] [1, 2] := by
+  simp [ValidIx, flatIdx, prod]
+example : meanAxis ⟨[2, 3], [cs!"y", cs!"x"], [1, 2, 3, 4, 5, 6], 1⟩ (-1) = meanArr ⟨[2, 3], [cs!"y", cs!"x"], [1, 2, 3, 4, 5, 6], 1⟩ 1 ∧
+    meanAxis ⟨[2, 3], [cs!"y", cs!"x"], [1, 2, 3, 4, 5, 6], 1⟩ (-3) = .error .valueError ∧
+    meanAxis ⟨[2, 3], [cs!"y", cs!"x"], [1, 2, 3, 4, 5, 6], 1⟩ 2 = .error .valueError := by decide
+-- transparency from the text: the hypotheses hold for an ordinary constraint, and fail for one with a call
+example : '(' ∉ unquote cs!"a[0:2],s.i&s.i>1&s.t=%22x%22" ∧ '(' ∈ unquote cs!"a,mean%28b,0%29" := by decide
+-- nesting from the text: depth 3 on a rank-3 array, axes -1, 0, 0
+example : render (meanTree cs!"a" [cs!"-1", cs!"0", cs!"0"]) = cs!"mean(mean(mean(a,-1),0),0)" := by decide
+example : evalMean (fun s => if s = cs!"a" then some ⟨[2, 2, 2], [cs!"z", cs!"y", cs!"x"], [1, 2, 3, 4, 5, 6, 7, 8], 1⟩ else none)
+      (parseCall 26 cs!"mean(mean(mean(a,-1),0),0)") = .ok ⟨[], [], [36], 8⟩ := by rfl
+example : [cs!"-1", cs!"0", cs!"0"].map parseIntChars = ([-1, 0, 0] : List Int).map some ∧
+    (∀ k ∈ [cs!"-1", cs!"0", cs!"0"], Plain k ∧ k ≠ []) ∧
+    meanChainI (.ok ⟨[2, 2, 2], [cs!"z", cs!"y", cs!"x"], [1, 2, 3, 4, 5, 6, 7, 8], 1⟩) [-1, 0, 0] = .ok ⟨[], [], [36], 8⟩ :=
+  ⟨by decide, by decide, by rfl⟩
+-- a grid: the map of the removed axis goes, the other stays
+example : meanGridAxis ⟨⟨[2, 3], [cs!"y", cs!"x"], [1, 2, 3, 4, 5, 6], 1⟩, [(cs!"y", [10, 20]), (cs!"x", [7, 8, 9])]⟩ (-1)
+    = .ok ⟨⟨[2], [cs!"y"], [6, 15], 3⟩, [(cs!"y", [10, 20])]⟩ := by decide
 example : bounds (fun a => match a with | .x => (1, 3) | .y => (5, 5) | .z => (0, 9)) [some .x, none, some .y]
     [[1, 0, 5], [4, 0, 5], [2, 7, 5], [3, 0, 6]] = [[1, 0, 5], [2, 7, 5]] := by decide
 example : render (.call cs!"mean" [.call cs!"mean" [.tok cs!"g.v", .tok cs!"0"], .call cs!"now" [], .tok cs!"-1.5e+06"])
